@@ -253,6 +253,30 @@ def run(ctx):
             for p in judge(before, dict(srv.scripts), abefore, srv.active, old, new, res):
                 viol.append({"state": "marker %r old=%s new=%s bystander=%s" % (marker, o, n, by), "fault": None, "what": p, "result": out[:80],
                              "before": {k.decode(): v.decode("latin-1") for k, v in before.items()}, "after": {k.decode(): v.decode("latin-1") for k, v in srv.scripts.items()}})
+    # the caller LISTS first and edits the list it got (takes names out, adds some — `Session.op` does that to every returned
+    # list), then renames: the rename decides on the server's state, not on the caller's copy of an earlier answer
+    for k_ in range(8):
+        for new_exists in (True, False):
+            scripts = {other: b"stop;\r\n", old: b"keep;\r\n"}
+            if new_exists:
+                scripts[new] = b"# keep me\r\ndiscard;\r\n"
+            srv = refserver.RefServer(r, scripts=scripts, active=other, version=False)
+            s = msref.Session()
+            s.connect(b"", [], "user", "pw", server=srv)
+            import aliasing
+            for j_ in range(1 + k_ // 4):
+                aliasing._MODE[0] = k_ % 4 + 4 * j_ - 1      # which edit the caller makes to the list it gets back: each of the four in turn
+                s.op("listscripts")
+            before, abefore = dict(srv.scripts), srv.active
+            out = s.op("renamescript", old.decode(), new.decode())
+            evals += 1
+            nontriv += 1
+            res = out.split(" ")[0][4:]
+            res = "crash" if res.startswith("crash") else res
+            for p in judge(before, dict(srv.scripts), abefore, srv.active, old, new, res):
+                viol.append({"state": "listscripts (the caller edits the list it got back) then renamescript; new name %s" % ("exists" if new_exists else "free"),
+                             "fault": None, "what": p, "result": out[:80], "before": {k.decode(): v.decode("latin-1") for k, v in before.items()},
+                             "after": {k.decode(): v.decode("latin-1") for k, v in srv.scripts.items()}})
     # the call REPEATED on the same client after it failed (a user retrying), the store having changed in between: each call is
     # judged on its own against the store it found — what an earlier attempt did or learnt gives no licence to overwrite
     for step in ("PUTSCRIPT", "SETACTIVE", "DELETESCRIPT", "GETSCRIPT"):
